@@ -76,6 +76,7 @@ def step (s : St) (ts : List String) : St × List String :=
     ({ s with content := s.content.map (swapRowsCol (natD a) (natD b)) }, ["swaprow"])
   | ["obs", n] => (s, obs s (natD n))
   | ["rows", n] => (s, rowsObs s (natD n))
+  | ["dup", _] => (s, ["dup"])   -- C15: copy / move / swap of the whole matrix is the identity of the model
   | _ => (s, ["bad-op"])
 
 def main (_args : List String) : IO Unit := do
